@@ -66,6 +66,15 @@ class CallSite:
         self.ln = t["ln"]
         self.x = t["x"]
 
+    @property
+    def cname(self):
+        """canonical, module-independent and rename-resolved name of a crate-local callee (else the plain name)."""
+        F = self.body.facts
+        if self.local and self.name in F.bodies:
+            F.canon  # make sure rename resolution ran
+            return F.canon_of(F.bodies[self.name])
+        return self.name
+
     def __repr__(self):
         return "Call(%s @%s:%d bb%d)" % (self.name, self.body.file, self.ln, self.bb)
 
@@ -377,12 +386,37 @@ class Body:
                 base += "?"
         return base
 
+    def alpha(self):
+        """context manager: while active, user variable names render as $1, $2, ... in order of first appearance,
+        so that a rendering does not depend on what the variables are called."""
+        body = self
+
+        class _A:
+            def __enter__(self_):
+                self_.old = getattr(body, "_alpha", None)
+                body._alpha = {}
+                return body
+
+            def __exit__(self_, *a):
+                body._alpha = self_.old
+        return _A()
+
     def lname(self, l, depth=4, seen=None):
         if l in self.names:
+            am = getattr(self, "_alpha", None)
+            if am is not None:
+                if l not in am:
+                    am[l] = "$%d" % (len(am) + 1)
+                return am[l]
             return self.names[l]
         if l == 0:
             return "_ret"
         if 1 <= l <= self.argc:
+            am = getattr(self, "_alpha", None)
+            if am is not None:
+                if l not in am:
+                    am[l] = "$%d" % (len(am) + 1)
+                return am[l]
             return "arg%d" % l
         if depth <= 0:
             return "_"
@@ -442,6 +476,16 @@ class Body:
                 return repr(b)
             if "fn" in k:
                 return "fn:" + (k.get("res") or k["fn"])
+            if "refint" in k:
+                return k["refint"]
+            if k.get("def"):
+                # a named constant renders as its value when that is an integer or a byte string (hoisting a literal
+                # into a `const` must not change any rendering)
+                c = self.facts.consts.get(k["def"])
+                if c is not None and "int" in c:
+                    return c["int"]
+                if c is not None and "bytes" in c:
+                    return repr(bytes.fromhex(c["bytes"]))
             return k.get("s", "?")
         p = op_place(o)
         # (tmp.0) of a checked op renders as the op itself
@@ -592,6 +636,7 @@ class Facts:
                 b.path = "%s@%s:%d" % (b.path, b.file, b.lo)
             self.bodies[b.path] = b
         self._canon = None
+        self._alias = {}
         self.consts = {c["name"]: c for c in self.d["consts"]}
         self.adts = {a["name"]: a for a in self.d["adts"]}
         self.impls = self.d["impls"]
@@ -634,6 +679,9 @@ class Facts:
 
     # ---- canonical, module-independent names:  Type::method, <Type as Trait>::method, module::free_fn, ...::{closure#n}
     def canon_of(self, b):
+        al = getattr(self, "_alias", None)
+        if al and b.path in al:
+            return al[b.path]
         if b.kind == "Closure":
             # nearest enclosing non-closure
             root = b.path
@@ -656,11 +704,70 @@ class Facts:
     @property
     def canon(self):
         if self._canon is None:
+            self._alias = {}
             m = defaultdict(list)
             for b in self.bodies.values():
                 m[self.canon_of(b)].append(b)
+            alias = self._resolve_renames(m)
+            if alias:
+                self._alias = alias
+                m = defaultdict(list)
+                for b in self.bodies.values():
+                    m[self.canon_of(b)].append(b)
             self._canon = m
         return self._canon
+
+    def _resolve_renames(self, m):
+        """a function recorded in tables/anchors.json that no longer exists under its name, while exactly one new
+        function with the same impl type and signature (and the most similar callers) exists: treat as renamed."""
+        p = os.path.join(V, "tables", "anchors.json")
+        if not os.path.exists(p):
+            return {}
+        with open(p) as f:
+            anchors = json.load(f)
+        missing = [a for a in anchors if a not in m]
+        if not missing:
+            return {}
+        extra = [c for c, bs in m.items() if c not in anchors and len(bs) == 1 and bs[0].kind != "Closure"]
+        if not extra:
+            return {}
+        # callers of the extras
+        cg_callers = defaultdict(set)
+        for pth, b in self.bodies.items():
+            root = b
+            while root.kind == "Closure":
+                par = self.bodies.get(root.path.rsplit("::{closure", 1)[0])
+                if par is None:
+                    break
+                root = par
+            for c in b.calls:
+                if c.local and c.name in self.bodies:
+                    cg_callers[self.canon_of(self.bodies[c.name])].add(self.canon_of(root))
+            for name, loc, _ in b.fn_mentions():
+                if loc and name in self.bodies:
+                    cg_callers[self.canon_of(self.bodies[name])].add(self.canon_of(root))
+        alias = {}
+        taken = set()
+        for a in sorted(missing):
+            info = anchors[a]
+            cands = []
+            for e in extra:
+                if e in taken:
+                    continue
+                b = m[e][0]
+                if b.kind != info["kind"] or strip_generics(b.self_ty) != strip_generics(info["self_ty"]) or b.impl_of != info["impl_of"]:
+                    continue
+                if [b.lty(i) for i in range(0, b.argc + 1)] != info["sig"]:
+                    continue
+                cs = cg_callers.get(e, set())
+                want = set(info["callers"])
+                j = len(cs & want) / float(len(cs | want) or 1)
+                cands.append((j, e))
+            cands.sort(reverse=True)
+            if cands and (len(cands) == 1 or cands[0][0] > cands[1][0]) and (cands[0][0] > 0 or not info["callers"]):
+                alias[m[cands[0][1]][0].path] = a
+                taken.add(cands[0][1])
+        return alias
 
     def fn(self, name):
         """exactly one body with canonical name `name` (fails closed otherwise)."""
